@@ -1274,6 +1274,7 @@ def _not_dm(e):
 # ----------------------------------------------------------------------------------------------------------------------
 # N25: a named tuple the rules were never confirmed against is the plain tuple it is at run time
 _STORED_ATTRS = None      # attribute names some statement of the tree may store to (None: tree not scanned)
+_RECORDS = {}             # attr.s / dataclass record types of the tree: name -> [field names in order]
 _NEW_TUPLES = {}          # type name -> [field names]
 _FIELD_INDEX = {}         # field name -> (type name, index) for fields that cannot be mistaken for any other attribute
 
@@ -1285,6 +1286,7 @@ def scan_new_tuples(sources):
     global _STORED_ATTRS
     _NEW_TUPLES.clear()
     _FIELD_INDEX.clear()
+    _RECORDS.clear()
     _STORED_ATTRS = None
     known = set()
     for ent in _reference().values():
@@ -1337,6 +1339,12 @@ def scan_new_tuples(sources):
                     for t in ([b.target] if isinstance(b, ast.AnnAssign) else b.targets if isinstance(b, ast.Assign) else []):
                         if isinstance(t, ast.Name):
                             other_attrs.add(t.id)
+                if any('attr.s' in ast.unparse(d_) or 'attrs' in ast.unparse(d_) for d_ in n.decorator_list):
+                    flds = [b.targets[0].id for b in n.body if isinstance(b, ast.Assign) and len(b.targets) == 1 and isinstance(b.targets[0], ast.Name)
+                            and isinstance(b.value, ast.Call) and ast.unparse(b.value.func) in ('attr.ib', 'attrib', 'attr.attrib') and not b.value.keywords]
+                    plain = [b for b in n.body if isinstance(b, ast.Assign)]
+                    if flds and len(flds) == len(plain):
+                        _RECORDS.setdefault(n.name, []).append(flds)
     _STORED_ATTRS = other_attrs | dyn_attrs
     if hazard:
         return
@@ -1351,6 +1359,36 @@ def scan_new_tuples(sources):
         for i, f_ in enumerate(fields):
             if counts[f_] == 1 and f_ not in other_attrs and not f_.startswith('_'):
                 _FIELD_INDEX[f_] = (name, i)
+
+
+def _record_keywords(tree):
+    """N31: a record type of the tree (attr.s class whose fields are plain attr.ib()) built with keyword arguments naming every
+    field is the positional construction in field order (the keywords are evaluated in the order written: allowed when they
+    are written in field order, or when every value is a name / constant / attribute chain).  Only for record types the
+    reference tree itself builds positionally (`__record_styles__` in the reference table)."""
+    styles = _reference().get('__record_styles__', {}).get('styles', {})
+    recs = {k: v[0] for k, v in _RECORDS.items() if len(v) == 1 and styles.get(k) == 'positional'}
+    if not recs:
+        return
+
+    class R(ast.NodeTransformer):
+        def visit_Call(self, c):
+            self.generic_visit(c)
+            nm = c.func.id if isinstance(c.func, ast.Name) else None
+            flds = recs.get(nm)
+            if flds is None or not c.keywords or any(k.arg is None for k in c.keywords) or any(isinstance(a, ast.Starred) for a in c.args):
+                return c
+            rest = flds[len(c.args):]
+            kw = {k.arg: k.value for k in c.keywords}
+            if sorted(kw) != sorted(rest) or len(kw) != len(c.keywords):
+                return c
+            in_order = [k.arg for k in c.keywords] == rest
+            if not in_order and not all(_simple_arg(v) for v in kw.values()):
+                return c
+            c.args = list(c.args) + [kw[f_] for f_ in rest]
+            c.keywords = []
+            return c
+    R().visit(tree)
 
 
 def _untuple(tree):
@@ -1707,6 +1745,7 @@ def normalize(tree, relpath=None):
     _unannotate(tree)
     if relpath is not None and not os.environ.get('VERIF_NO_REFNORM'):
         _untuple(tree)
+        _record_keywords(tree)
     _list_spellings(tree)
     _split_tuple_assign(tree)
     if relpath is not None and not os.environ.get('VERIF_NO_REFNORM'):
